@@ -99,6 +99,11 @@ def make_cases(table, tier, seed, path, quick_n=4200):
             else:
                 prec = rng.choice(PRECS)
                 mag = rng.choice(MAGS)
+            names = fmts[r[5]]
+            if r[7] == "accept" and mag != 0 and rng.random() < 0.7 and any(
+                    not nm.startswith(r[0]) or nm.lower().startswith("zin") !=
+                    (r[0] == "Zin") for nm in names):
+                mag = 0      # converted parameters are compared at moderate scale only
             nf = rng.choice((1, 2, 3, 3))
             if r[7] == "either" and rng.random() < 0.5 and r[0] != "undef":
                 nf = 0
@@ -306,7 +311,7 @@ def run_c06(ctx, exe, table, tier, seed):
                 ctx.sample(json.loads(line))
                 break
     res = vlib.validate_sharded("FileFmtTrace.tla", "FileFmtTrace.cfg", tr,
-                                ctx.work, max_failures=60 if tier == "quick" else 200,
+                                ctx.work, max_failures=8 if tier == "quick" else 25,
                                 timeout=3000)
     ctx.machinery_errors += res["errors"]
     issues += issues_from_validation(ctx, res, "save/load replay")
